@@ -450,3 +450,22 @@ Definition chk_config (c : rawcase) : float :=
            (fmax (devs dev_exact (rgrid st) (lnth (out c) 1))
                  (match lnth (out c) 2 with [] => 0%float | p => devs dev_exact plan p end))
   end.
+
+(* ================= dtype shadow (C16) =================
+   zs = [method; x_dt; y_dt; dy (0 none, 1 I, 2 F); xout_dt; observed v_dt; observed e_dt; values equal to the all-float run (1/0)]
+   method 0..17: conv_shadows order; 18: fourier_transform; 19: F_to_G; >= 20: named transforms / filter variants / rebin (all float) *)
+From PyStoG Require Import DTypeShadow.
+Definition dt_of (z : Z) : dt := if Z.eqb z 0 then I else F.
+Definition odt_of (z : Z) : option dt := match z with 0%Z => None | 1%Z => Some I | _ => Some F end.
+Definition chk_dtype (c : rawcase) : float :=
+  let z := zs c in
+  let m := Z.to_nat (znth z 0) in
+  let x := dt_of (znth z 1) in let y := dt_of (znth z 2) in let d := odt_of (znth z 3) in let xo := dt_of (znth z 4) in
+  let s := match nth_error (conv_shadows sd) m with
+           | Some f => f x y d
+           | None => if Nat.eqb m 18 then sft true x y xo d
+                     else if Nat.eqb m 19 then sF_to_G true x y xo d
+                     else {| v_dt := F; e_dt := F; bad := false |}
+           end in
+  if negb (bad s) && dt_eqb (v_dt s) (dt_of (znth z 5)) && dt_eqb (e_dt s) (dt_of (znth z 6)) && zb (znth z 7)
+  then 0%float else PrimFloat.infinity.
